@@ -49,6 +49,7 @@ var readOnly = map[string]bool{
 	"errors.New":                     true,
 	"strings.Join":                   true,
 	"strings.Split":                  true,
+	"strings.SplitN":                 true,
 	"strings.Fields":                 true,
 	"strings.Contains":               true,
 	"strings.ReplaceAll":             true,
@@ -107,6 +108,33 @@ func (e *Eval) call(fr *frame, x *ssa.Call, st State) AV {
 	}
 	if callee.Name() == "init" && callee.Synthetic != "" && len(args) == 0 {
 		return TupleV{} // another package's initialiser: its globals are read from the syntax tree
+	}
+	if callee.Pkg == nil && callee.Parent() == nil && len(callee.Blocks) > 0 && (strings.HasPrefix(callee.Synthetic, "bound method wrapper") || strings.HasPrefix(callee.Synthetic, "thunk for")) && fr.depth < maxDepth-1 {
+		// a method value (`f := norm.NFKD.String`): the wrapper only calls the method
+		res, out := e.evalFunc(callee, args, bindings, st, fr.depth+1, false)
+		for k := range st {
+			delete(st, k)
+		}
+		for k, v := range out {
+			st[k] = v
+		}
+		if len(res) == 1 {
+			return res[0]
+		}
+		return TupleV(res)
+	}
+	if callee.Pkg != nil && e.P.InModule(callee.Pkg) && len(args) == 1 {
+		if sep, ok := e.P.byteSplitter(callee); ok {
+			// a hand-written strings.Split(s, sep) (matched whole, see byteSplitter)
+			t := &TokensV{Fn: "strings.Split", In: args[0], Sep: CStr(sep), Site: x, N: RangeInt(1, 1<<31)}
+			if e.Ctx != nil && e.Ctx.TokCount != nil {
+				t.N = CInt(*e.Ctx.TokCount)
+			} else if e.Ctx != nil && e.Ctx.SizeRange != nil && e.Ctx.SizeKind == "N" {
+				t.N = RangeInt(e.Ctx.SizeRange[0], e.Ctx.SizeRange[1])
+			}
+			e.record(fr, x, "strings.Split", nil, []AV{args[0], CStr(sep)}, t, st)
+			return t
+		}
 	}
 	if callee.Pkg != nil && e.P.InModule(callee.Pkg) || (callee.Parent() != nil && callee.Parent().Pkg != nil && e.P.InModule(callee.Parent().Pkg)) {
 		if len(callee.Blocks) > 0 && e.Ctx != nil && e.Ctx.Modular[callee] {
@@ -167,6 +195,37 @@ func (e *Eval) call(fr *frame, x *ssa.Call, st State) AV {
 func (e *Eval) stackHasLoop() bool { return len(e.activeLoops) > 0 }
 
 func (e *Eval) record(fr *frame, x ssa.Instruction, callee string, recv AV, args []AV, res AV, st State) {
+	// bytes of a pooled buffer handed to a call: they must have been overwritten since the buffer
+	// came out of the pool, else the result depends on what an earlier call left there
+	if callee != "len" && callee != "cap" {
+		for i, a := range args {
+			b, ok := a.(BytesV)
+			if !ok {
+				continue
+			}
+			if (callee == "copy" && i == 0) || ((callee == "io.ReadFull" || callee == "io.ReadAtLeast") && i == 1) || (strings.HasSuffix(callee, ".FillBytes") && i == 1) {
+				continue // the destination of a write, not something read
+			}
+			origin := b.Obj
+			if origin == nil {
+				origin = b.WinOf
+			}
+			rb := e.resolveBytes(b, st)
+			stale := false
+			if rb.HasVal {
+				for _, f := range rb.Val {
+					if strings.HasPrefix(f.Sym, "stale") {
+						stale = true
+					}
+				}
+			} else if origin != nil && e.poolBuf[origin] {
+				stale = true // content unknown: cannot show that the stale bytes are gone
+			}
+			if stale {
+				e.event("E1", Violated, x, "%s is given bytes of a pooled buffer that are not shown to have been overwritten since it came out of the pool: they may be whatever an earlier call left there", callee)
+			}
+		}
+	}
 	// a window into a buffer is recorded with what it holds now, at the call
 	for i, a := range args {
 		if b, ok := a.(BytesV); ok && b.Obj == nil && b.WinOf != nil && b.WinConst {
@@ -330,6 +389,19 @@ func (e *Eval) builtin(fr *frame, x *ssa.Call, name string, args []AV, st State)
 		}
 	case "copy":
 		e.record(fr, x, name, nil, args, nil, st)
+		// what copy returns: min(len(dst), len(src)), when both are known before the copy
+		copied := IntV(RangeInt(0, 1<<31))
+		{
+			dl, sl := e.lenOf(fr, args[0], st), e.lenOf(fr, args[1], st)
+			if a, ok := dl.Const(); ok {
+				if b, ok := sl.Const(); ok {
+					if b < a {
+						a = b
+					}
+					copied = CInt(a)
+				}
+			}
+		}
 		if d, ok := args[0].(BytesV); ok {
 			if d.Param != nil {
 				e.event("F4", Violated, x, "copy into caller-owned slice %s", d.Param.Name())
@@ -409,9 +481,15 @@ func (e *Eval) builtin(fr *frame, x *ssa.Call, name string, args []AV, st State)
 			e.escape(fr, st, args[0], "copy destination")
 			e.clobber(fr, st, "copy into a slice that is not resolved", okBuf, okCell)
 		}
-		return RangeInt(0, 1<<31)
+		return copied
 	case "append":
 		e.record(fr, x, name, nil, args, nil, st)
+		if _, isNil := args[0].(NilV); isNil && len(args) == 2 {
+			// append([]byte(nil), b...): a private copy of b in a buffer of its own
+			if src, ok := args[1].(BytesV); ok {
+				return e.cloneBytes(fr, x, src, st)
+			}
+		}
 		if d, ok := args[0].(BytesV); ok {
 			if d.Param != nil {
 				e.event("F4", Violated, x, "append to caller-owned slice %s may write into its spare capacity", d.Param.Name())
@@ -621,6 +699,18 @@ func (e *Eval) invoke(fr *frame, x *ssa.Call, recv AV, method string, args []AV,
 	return e.topOf(x.Type(), "invoke "+method)
 }
 
+// cloneBytes: a fresh buffer object holding what src holds now (append([]byte(nil), src...),
+// bytes.Clone, slices.Clone).
+func (e *Eval) cloneBytes(fr *frame, x ssa.Instruction, src BytesV, st State) AV {
+	n := stripObj(e.resolveBytes(src, st))
+	n.Param = nil
+	o := e.newObj(okBuf, x, "private copy")
+	e.setContentFresh(st, o, BufC{n})
+	r := n
+	r.Obj = o
+	return r
+}
+
 func stripObj(b BytesV) BytesV {
 	b.Obj, b.WinOf, b.WinLo, b.WinConst, b.WinOff, b.WinN = nil, nil, nil, false, 0, 0
 	return b
@@ -697,6 +787,25 @@ func (e *Eval) model(fr *frame, x *ssa.Call, callee *ssa.Function, args []AV, st
 		o := e.newObj(okHash, x, "SHA256")
 		e.setContentFresh(st, o, HashC{})
 		return ret(HashV{O: o})
+	case "(encoding/binary.bigEndian).Uint64", "(encoding/binary.bigEndian).Uint32", "(encoding/binary.bigEndian).Uint16":
+		// the first 8 / 4 / 2 bytes of the slice as one big-endian integer
+		nb := map[string]int64{"Uint64": 8, "Uint32": 4, "Uint16": 2}[callee.Name()]
+		if b, ok := args[len(args)-1].(BytesV); ok {
+			src := e.resolveBytes(b, st)
+			if src.LenKnown && src.Len.Const() && src.HasVal && !src.Min && src.Pending == nil {
+				if src.Len.A < nb {
+					e.event("P2", Violated, x, "%s of a %d-byte slice: panics", name, src.Len.A)
+					return ret(TopInt("out of range"))
+				}
+				e.event("P2", Discharged, x, "%s of a %d-byte slice", name, src.Len.A)
+				if v, ok := src.Val.Slice(8*(src.Len.A-nb), 8*nb); ok {
+					return ret(BitsInt(v))
+				}
+			} else {
+				e.event("P2", Undecided, x, "%s: the slice is not shown to have %d bytes", name, nb)
+			}
+		}
+		return ret(e.topOf(x.Type(), name))
 	case "crypto/subtle.ConstantTimeCompare", "bytes.Equal":
 		// 1 / true iff the two slices have the same length and content
 		c := e.bytesEqCond(args[0], args[1], st)
@@ -746,6 +855,27 @@ func (e *Eval) model(fr *frame, x *ssa.Call, callee *ssa.Function, args []AV, st
 			}
 		}
 		return ret(RangeInt(0, math.MaxInt32))
+	case "strings.SplitN":
+		// below its limit SplitN is Split (the limit against the size gate: G3 split-limit)
+		if k, ok := args[2].(IntV); ok {
+			if kc, isC := k.Const(); isC && kc > 0 && e.Ctx != nil {
+				below := e.Ctx.TokCount != nil && *e.Ctx.TokCount < kc
+				if e.Ctx.TokCount == nil && e.Ctx.SizeRange != nil && e.Ctx.SizeKind == "N" && e.Ctx.SizeRange[1] < kc {
+					below = true
+				}
+				if below {
+					name = "strings.Split"
+					t := &TokensV{Fn: name, In: args[0], Site: x, Sep: args[1]}
+					if e.Ctx.TokCount != nil {
+						t.N = CInt(*e.Ctx.TokCount)
+					} else {
+						t.N = RangeInt(e.Ctx.SizeRange[0], e.Ctx.SizeRange[1])
+					}
+					return ret(t)
+				}
+			}
+		}
+		return ret(e.topOf(x.Type(), "strings.SplitN at or above its limit"))
 	case "strings.Split", "strings.Fields":
 		t := &TokensV{Fn: name, In: args[0], Site: x}
 		if name == "strings.Split" {
@@ -996,7 +1126,30 @@ func (e *Eval) model(fr *frame, x *ssa.Call, callee *ssa.Function, args []AV, st
 	case "(*net/http.Client).Get":
 		// a client of the program's own (timeouts, transport): the same request for the same URL
 		return ret(TupleV{ResV{Kind: "http.Response", A: args[1], Site: x}, e.fallible(x, name, st)})
+	case "io.LimitReader":
+		// io.LimitReader(resp.Body, n): at most the first n bytes of the download
+		if rv, ok := args[0].(ResV); ok && rv.Kind == "http.Body" {
+			if n, ok := args[1].(IntV); ok {
+				if k, isC := n.Const(); isC && k > 0 {
+					return ret(ResV{Kind: "http.BodyLimited", A: rv.A, Flags: CInt(k), Site: x})
+				}
+			}
+		}
 	case "io/ioutil.ReadAll", "io.ReadAll":
+		if rv, ok := args[0].(ResV); ok && rv.Kind == "http.BodyLimited" {
+			// the first n bytes of the download: all of it only where the program has seen that
+			// fewer than n arrived (refineOnEdge, on a comparison of len of this very slice)
+			k, _ := rv.Flags.(IntV).Const()
+			b := BytesV{Src: fmt.Sprintf("⊤: at most the first %d bytes of the download (io.LimitReader): a longer list is cut short unless the length read is compared with the limit", k)}
+			o := e.newObj(okBuf, x, "downloaded bytes, limited")
+			e.setContentFresh(st, o, BufC{b})
+			if e.limited == nil {
+				e.limited = map[*Obj]limitedRead{}
+			}
+			e.limited[o] = limitedRead{N: k, URL: rv.A}
+			b.Obj = o
+			return ret(TupleV{b, e.fallible(x, name, st)})
+		}
 		if rv, ok := args[0].(ResV); ok && rv.Kind == "http.Body" {
 			b := BytesV{Src: "download", Str: StrV{Kind: skSrc, S: "download", X: rv.A}}
 			o := e.newObj(okBuf, x, "downloaded bytes")
@@ -1098,6 +1251,29 @@ func (e *Eval) model(fr *frame, x *ssa.Call, callee *ssa.Function, args []AV, st
 			}
 		}
 		return ret(e.fallible(x, name, st))
+	case "(*sync.Pool).Get":
+		// a typed free list (poolTypes): a *T whose content is whatever an earlier user left
+		if pv, ok := args[0].(PtrV); ok && pv.G != nil && e.G != nil {
+			if pt, ok := e.G.PoolElem[pv.G].(*types.Pointer); ok {
+				if at, ok := pt.Elem().Underlying().(*types.Array); ok {
+					if b, ok := at.Elem().Underlying().(*types.Basic); ok && b.Kind() == types.Uint8 {
+						o := e.newObj(okCell, x, "byte array")
+						// its bytes are a symbol of their own: whatever is read before it is overwritten
+						// shows up as those bits in the layouts (and matches nothing the rules expect)
+						e.setContentFresh(st, o, CellC{BytesV{LenKnown: true, Len: K(at.Len()), HasVal: true, Val: SymL(fmt.Sprintf("stale%d", o.ID), 8*at.Len()), Src: "a buffer from a sync.Pool (left by an earlier user)"}})
+						if e.poolObj == nil {
+							e.poolObj = map[*Obj]types.Type{}
+						}
+						e.poolObj[o] = pt
+						return ret(PtrV{O: o})
+					}
+				}
+			}
+		}
+	case "(*sync.Pool).Put":
+		if pv, ok := args[0].(PtrV); ok && pv.G != nil && e.G != nil && e.G.PoolElem[pv.G] != nil {
+			return ret(TupleV{}) // handed back; whoever gets it next knows nothing about its content
+		}
 	case "(*sync.Once).Do":
 		if fv, ok := args[1].(FuncV); ok {
 			for i, b := range fv.Bindings {
